@@ -516,8 +516,13 @@ def finish(ctx):
     ev = {'property_id': ctx.prop, 'tier': ctx.tier, 'seed': ctx.seed, 'level': ctx.level,
           'coverage': cov, 'assumptions': ctx.assumptions,
           'wall_s': round(time.time() - ctx.t0, 2), 'violations': len(seen)}
-    os.makedirs(os.path.join(OUT, 'evidence'), exist_ok=True)
-    with open(os.path.join(OUT, 'evidence', ctx.prop + '.json'), 'w') as f:
+    if ctx.replay_case is not None:
+        # a replay re-runs one recorded case; it must not overwrite the evidence of a full run
+        epath = os.path.join(OUT, 'replays', ctx.prop, 'last_replay_evidence.json')
+    else:
+        epath = os.path.join(OUT, 'evidence', ctx.prop + '.json')
+    os.makedirs(os.path.dirname(epath), exist_ok=True)
+    with open(epath, 'w') as f:
         json.dump(ev, f, indent=1, default=str)
     print('%s %s: evaluations=%d distinct_nontrivial=%d violations=%d known=%d wall=%.1fs'
           % (ctx.prop, ctx.tier, cov['evaluations'], cov['distinct_nontrivial'], len(seen),
